@@ -75,6 +75,8 @@ class Interp:
         self.values = {}      # return values seen
         self._serials = {}    # id(obj) -> (serial, obj)   (keeps objects alive: ids stay unique)
         self.fault_log = []   # (k, target, seq_at_injection, time, status_before) of injected cancels
+        self.nested = []      # (id, inner log, inner error) of nested_run steps
+        self.hooks = {}
         self.scope_tasks = {}  # scope name -> [task names spawned into it]
         self.samples = []     # per activation boundary: {task: (status, done)} (if sampling is on)
         o = prog.get('objs', {})
@@ -609,6 +611,42 @@ class Interp:
                 await self.steps(name, idx + ('f',), st.get('final', ()))
                 ev(name, idx, 'cleanup_end')
                 raise
+        elif op == 'nested_run':
+            # a complete simulation run from inside this one (synchronously, as usim allows)
+            ev(name, idx, 'nested_begin')
+            inner = Interp(st['prog'])
+            inner.hooks = self.hooks
+            roots = inner.roots()
+            err = None
+            try:
+                ip = st['prog']
+                if ip.get('till') is not None:
+                    usim.run(*roots, start=num(ip.get('start', 0)), till=num(ip['till']))
+                else:
+                    usim.run(*roots, start=num(ip.get('start', 0)))
+            except BaseException as e:       # whatever the inner simulation ends with is only recorded
+                if type(e).__name__ in ('Livelock', 'Runaway', 'WallTimeout'):
+                    raise
+                err = inner.describe(e)
+                if err[0] == 'other' and isinstance(e, RuntimeError) and hasattr(e, 'result'):
+                    err = ('leak', e.result)
+            seen = len(inner.log)            # later entries stem from closing abandoned coroutines
+            for r in roots:
+                try:
+                    r.close()
+                except BaseException:
+                    pass
+            self.nested.append((st.get('id'), [tuple(x[1:6]) for x in inner.log[:seen]], err))
+            ev(name, idx, 'nested_end', err)
+        elif op == 'gc_collect':
+            import gc as _gc
+            _gc.collect()
+            ev(name, idx, 'ok')
+        elif op == 'sync':
+            hook = self.hooks.get('sync')
+            if hook is not None:
+                hook(st['id'])
+            ev(name, idx, 'ok')
         elif op == 'now':
             ev(name, idx, 'now')
         elif op == 'mark':
@@ -629,7 +667,7 @@ def _unraisable(u):
     NOISE[0] += 1
 
 
-def execute(prog, probe=None, wall=60, faults=(), sample=False, observe=None):
+def execute(prog, probe=None, wall=60, faults=(), sample=False, observe=None, hooks=None):
     """Run a program on the real usim.  Returns (interp, outcome, exc, probe).
 
     faults: [{'k': activation boundary, 'target': task name, 'token': [...]}]: before
@@ -645,6 +683,8 @@ def execute(prog, probe=None, wall=60, faults=(), sample=False, observe=None):
     sys.unraisablehook = _unraisable      # GC-time noise of abandoned coroutines: counted only
     warnings.simplefilter('ignore')
     it = Interp(prog)
+    if hooks:
+        it.hooks = hooks
     roots = it.roots()
     till = prog.get('till')
     probe = probe or Probe()
